@@ -434,6 +434,22 @@ def end_of_input_and_bad_bytes_in_the_lexer(F, R):
         keeps = any(x["k"] == "MethodCall" and x["name"] in ("get_or_insert", "get_or_insert_with", "replace", "insert") for x in walk(cc))
         R.ob("C17:comment_char:keeps-the-error-and-goes-on", loops_on and keeps and any(x["k"] == "MethodCall" and x["name"] == "is_unexpected_eof" for x in walk(cc)),
              "comment_char must loop past decoding errors, remembering the first, and stop only at a character or the end of the input", F.where(L["comment_char"]))
+    # the same discipline everywhere in the lexer and the parser: the result of a look-ahead / read is matched or
+    # propagated, never thrown away
+    dropped = []
+    n_fns = 0
+    for p, it in sorted(F.items.items()):
+        if it["file"] not in ("src/parser/lexer.rs", "src/parser/parser.rs") or it["kind"] not in ("Fn", "AssocFn") or "::tests::" in p:
+            continue
+        n_fns += 1
+        for x in walk(F.hir(p)["body"]):
+            if x["k"] == "MethodCall" and x["name"] in ("ok", "unwrap_or", "unwrap_or_default", "unwrap_or_else", "is_ok", "is_err") and \
+                    any(y["k"] == "MethodCall" and y["name"] in ("lookahead_char", "read_char", "next_token", "scan_for_layout") for y in walk(x["recv"])):
+                dropped.append("%s:%s .%s()" % (short(p), x["ln"], x["name"]))
+    R.floor("lexer and parser functions scanned for discarded read results", n_fns, 60)
+    R.ob("C17:reader:no-read-result-discarded", not dropped,
+         "the error of a look-ahead or read is discarded at %s: invalid bytes consumed by that call are never reported and the text after them is read as if they were not there" % dropped,
+         "src/parser/lexer.rs")
     sl = F.hir(L["scan_for_layout"])["body"]
     okd = [x["ln"] for x in walk(sl) if x["k"] == "MethodCall" and x["name"] in ("ok", "unwrap_or", "unwrap_or_default") and any(is_la(y) for y in walk(x["recv"]))]
     R.ob("C17:scan_for_layout:decoder-error-is-reported", not okd,
